@@ -364,7 +364,7 @@ func c20SerMain(args []string) int {
 			}
 		}
 		text := runesToString(s.Raw)
-		ts := parser.Tokenize([]byte(text), false)
+		ts := parser.Tokenize([]byte(text), s.Skip)
 		ser := parser.Serialize(ts)
 		// re-tokenize the serialisation with the real tokenizer and compare with the specification's tokens of the
 		// ORIGINAL input (so the reference is the spec, not the tokenizer under test)
@@ -415,15 +415,105 @@ type parseScn struct {
 	Res   []parseItem `json:"res"`
 }
 
-func init() { commands["c06parse"] = c06ParseMain }
+func init() {
+	commands["c06parse"] = func(args []string) int { return c06ParseMain("c06parse", args) }
+	commands["c20rule"] = func(args []string) int { ruleRoundTrip = true; return c06ParseMain("c20rule", args) }
+}
+
+// ruleRoundTrip switches the parse driver to the C20 rule-level round trip.
+var ruleRoundTrip bool
+
+func stripEv(evs []Ev) []Ev {
+	var out []Ev
+	for _, e := range mergeWs(evs) {
+		if e.K == "comment" {
+			continue
+		}
+		e.line, e.col, e.S = 0, 0, 0
+		out = append(out, e)
+	}
+	return mergeWs(out)
+}
+
+func sameTokens(a, b []parser.Token) bool {
+	var fa, fb []Ev
+	flatten(a, &fa)
+	flatten(b, &fb)
+	fa, fb = stripEv(fa), stripEv(fb)
+	if len(fa) != len(fb) {
+		return false
+	}
+	for i := range fa {
+		if fa[i].K != fb[i].K || !eqInts(fa[i].V, fb[i].V) || !eqInts(fa[i].Repr, fb[i].Repr) || !eqInts(fa[i].Unit, fb[i].Unit) || fa[i].C != fb[i].C {
+			return false
+		}
+	}
+	return true
+}
+
+// c20Rules: every parsed rule / declaration is serialized with the package's rule serializers and parsed
+// again on its own; it must come back as the same construct with the same component values.
+func c20Rules(s *parseScn, texts []string, res []parser.Compound, out *drv.Out) {
+	for _, r := range res {
+		switch r.(type) {
+		case parser.QualifiedRule, parser.AtRule, parser.Declaration:
+		default:
+			continue
+		}
+		text := parser.VerifSerializeCompound(r)
+		out.Count("roundtrips")
+		bad := func(why string) {
+			out.Disagree("rule-roundtrip:"+why, fmt.Sprintf("%s of %q: %T serialises to %q which parses back differently (%s)", s.Entry, strings.Join(texts, ""), r, text, why),
+				map[string]interface{}{"entry": s.Entry, "tokens": s.Toks, "serialized": text})
+		}
+		switch r := r.(type) {
+		case parser.Declaration:
+			back := parser.ParseOneDeclaration(parser.Tokenize([]byte(text), false))
+			d, ok := back.(parser.Declaration)
+			if !ok {
+				bad("declaration-becomes-error")
+			} else if d.Name != r.Name || d.Important != r.Important {
+				bad("declaration-name-or-importance")
+			} else if !sameTokens(d.Value, r.Value) {
+				bad("declaration-value")
+			}
+		case parser.QualifiedRule:
+			back := parser.ParseRuleList(parser.Tokenize([]byte(text), false), true, true)
+			if len(back) != 1 {
+				bad("qualified-rule-count")
+				continue
+			}
+			q, ok := back[0].(parser.QualifiedRule)
+			if !ok {
+				bad("qualified-rule-kind")
+			} else if !sameTokens(q.Prelude, r.Prelude) || !sameTokens(q.Content, r.Content) {
+				bad("qualified-rule-tokens")
+			}
+		case parser.AtRule:
+			back := parser.ParseRuleList(parser.Tokenize([]byte(text), false), true, true)
+			if len(back) != 1 {
+				bad("at-rule-count")
+				continue
+			}
+			q, ok := back[0].(parser.AtRule)
+			if !ok {
+				bad("at-rule-kind")
+			} else if q.AtKeyword != r.AtKeyword {
+				bad("at-rule-keyword")
+			} else if !sameTokens(q.Prelude, r.Prelude) || !sameTokens(q.Content, r.Content) || (q.Content == nil) != (r.Content == nil) {
+				bad("at-rule-tokens")
+			}
+		}
+	}
+}
 
 var absText = map[string]string{
 	"ws": " ", "comment": "/*c*/", "ident": "color", "imp": "ImPortant", ":": ":", ";": ";", "!": "!",
 	"at": "@media", "{}": "{a:b;c}", "()": "(x;y)", "num": "12px", "cdo": "<!--", "cdc": "-->",
 }
 
-func c06ParseMain(args []string) int {
-	return drv.Main("c06parse", args, func(fs *flag.FlagSet) {}, func(line []byte, out *drv.Out) {
+func c06ParseMain(name string, args []string) int {
+	return drv.Main(name, args, func(fs *flag.FlagSet) {}, func(line []byte, out *drv.Out) {
 		var s parseScn
 		if err := json.Unmarshal(line, &s); err != nil {
 			out.Fatal("bad scenario: " + err.Error())
@@ -451,6 +541,18 @@ func c06ParseMain(args []string) int {
 			res = parser.ParseDeclarationList(toks, false, false)
 		case "onedecl":
 			res = []parser.Compound{parser.ParseOneDeclaration(toks)}
+		case "blocks":
+			for _, w := range s.Res {
+				if w.K == "qual" && w.Lax {
+					out.Count("lax-skipped")
+					return
+				}
+			}
+			res = parser.ParseBlocksContents(toks, false)
+		}
+		if ruleRoundTrip {
+			c20Rules(&s, texts, res, out)
+			return
 		}
 		var got []parseItem
 		for _, r := range res {
